@@ -348,7 +348,7 @@ func (f *Field[T]) reduceAndOp(op func(*Element[T], *Element[T], uint) *Element[
 	var target overflowError
 
 	for nextOverflow, err = preCond(a, b); errors.As(err, &target); nextOverflow, err = preCond(a, b) {
-		if !target.reduceRight {
+		if !target.reduceRight || b == nil { // unary operations (Inverse, Sqrt) have only a to reduce
 			a = f.Reduce(a)
 		} else {
 			b = f.Reduce(b)
